@@ -1,4 +1,4 @@
-use crate::{core, packed};
+use crate::{core, packed, prelude::*};
 
 /*
  * Blockchain
@@ -66,7 +66,35 @@ impl<'r> packed::TransactionVecReader<'r> {
 
 impl<'r> packed::BlockReader<'r> {
     fn check_data(&self) -> bool {
-        self.transactions().check_data()
+        self.transactions().check_data() && self.check_extension()
+    }
+
+    /// The first extra field, when present, is read as the extension through
+    /// `extension()`, which unwraps: it has to be a valid `Bytes`.
+    fn check_extension(&self) -> bool {
+        self.extra_field(0)
+            .map(|data| packed::BytesReader::from_slice(data).is_ok())
+            .unwrap_or(true)
+    }
+}
+
+impl<'r> packed::CompactBlockReader<'r> {
+    /// Checks that the first extra field, when present, is a valid `Bytes`
+    /// (it is read as the extension through `extension()`, which unwraps).
+    pub fn check_data(&self) -> bool {
+        let count = self.count_extra_fields();
+        if count == 0 {
+            return true;
+        }
+        let slice = self.as_slice();
+        let i = (1 + Self::FIELD_COUNT) * molecule::NUMBER_SIZE;
+        let start = molecule::unpack_number(&slice[i..]) as usize;
+        let end = if count == 1 {
+            slice.len()
+        } else {
+            molecule::unpack_number(&slice[i + molecule::NUMBER_SIZE..]) as usize
+        };
+        packed::BytesReader::from_slice(&slice[start..end]).is_ok()
     }
 }
 
